@@ -123,6 +123,9 @@ pub struct TapState {
     /// If the next stage is a sort adapter: its comparison (known finding KF-D6 trigger).
     pub feeds_sort: Option<CmpKind>,
     pub prev: Option<Rc<RefCell<TapState>>>,
+    /// The stage(s) producing this boundary, each with the tap on its limit stream (C13: after every
+    /// emitted batch the view is the stage's view of its input for the limits it has pulled).
+    pub group: Vec<(StageSpec, Option<Rc<RefCell<LimTapState>>>)>,
 }
 
 impl TapState {
@@ -142,6 +145,7 @@ impl TapState {
             stage_props: Vec::new(),
             feeds_sort: None,
             prev: None,
+            group: Vec::new(),
         }
     }
 
@@ -313,6 +317,29 @@ impl TapState {
         }
     }
 
+    /// C13: a batch has just been applied to this boundary of a batched consumer.
+    fn check_batch_view(&self, env: &Env, cs: &ConsumerShared) {
+        let Some(prev) = &self.prev else { return };
+        if !self.batched || self.group.is_empty() || cs.retire.get().is_some() {
+            return;
+        }
+        let input = vs(&prev.borrow().replica);
+        let stages: Vec<(StageSpec, Option<usize>)> = self.group.iter().map(|(s, lt)| (*s, lt.as_ref().and_then(|l| l.borrow().pulled))).collect();
+        let want = super::view::group_view(&stages, &input);
+        let got = vs(&self.replica);
+        if let Err(e) = super::view::matches(&want, &got) {
+            let mut ps = self.sp();
+            ps.push("C13");
+            cs.violate(
+                env,
+                &ps,
+                "batch_leaves_inconsistent_view",
+                self.index as i32,
+                format!("after an emitted batch, stage {:?} over input {:?} with pulled limits {:?}: {}", self.group.iter().map(|(s, _)| *s).collect::<Vec<_>>(), input, stages.iter().map(|(_, l)| *l).collect::<Vec<_>>(), e),
+            );
+        }
+    }
+
     fn on_stage_item(&mut self, diffs: &[VectorDiff<Elem>], env: &Env, cs: &ConsumerShared) {
         let stage = self.index as i32;
         for d in diffs {
@@ -334,6 +361,7 @@ impl TapState {
                 }
             }
         }
+        self.check_batch_view(env, cs);
     }
 
     fn on_end(&mut self, env: &Env, cs: &ConsumerShared) {
